@@ -437,10 +437,6 @@ def run(scn: Dict[str, Any]) -> List[Dict[str, Any]]:
                 env.sent[j] = None
                 env.mode = mode
                 env.cur_j = j
-                if b1.find_task(msg.task_name) is None:
-                    env.rec("noop")
-                    snap()
-                    continue
                 # the broker hands the message over with an acknowledge callable and delivers it again (at most twice more)
                 # when a processing that ended normally did not acknowledge it
                 acked: List[int] = []
